@@ -534,6 +534,38 @@ func Run(cfg hx.Config) error {
 			}
 		}
 	}
+	// Exhaustive pairs on small configurations: a fault at every position of a
+	// first attempt followed by a fault at every position of a second attempt
+	// (then clean retries), and every pair of positions within one attempt.
+	small := []scenario{
+		{Cfg: ctrl.Config{{Eco: 0, Kind: 'p', Name: "a", Version: "1"}}, M: []int{1}},
+	}
+	firstKinds, secondKinds := []byte{ctrl.FCommitErr, ctrl.FCrash}, []byte{ctrl.FErr}
+	if cfg.Thorough() {
+		small = append(small, scenario{Cfg: ctrl.Config{{Eco: 0, Kind: 'p', Name: "ab", Version: "1"}, {Eco: 1, Kind: 'd', Name: "b", Version: "1"}}, M: []int{1, 2}})
+		firstKinds, secondKinds = kinds, []byte{ctrl.FErr, ctrl.FCommitErr, ctrl.FDeadline, ctrl.FCancelAfter}
+	}
+	for _, sc := range small {
+		c.setup(sc)
+		clean := c.attempt(sc, ctrl.Script{}, false)
+		n := clean.Calls
+		npairs := 0
+		for p := 0; p < n && !r.Stop() && !c.s.Lost; p++ {
+			for q := 0; q < n && !r.Stop() && !c.s.Lost; q++ {
+				for _, k1 := range firstKinds {
+					for _, k2 := range secondKinds {
+						c.faulty(sc, []ctrl.Script{{p: k1}, {q: k2}}, false)
+						npairs++
+						if q > p && (k1 == ctrl.FCommitErr || cfg.Thorough()) {
+							c.faulty(sc, []ctrl.Script{{p: k1, q: k2}}, false)
+							npairs++
+						}
+					}
+				}
+			}
+		}
+		r.Notes["exhaustive pairs "+sc.String()] = fmt.Sprintf("%d call positions; every (p, q) x first-attempt kinds %q x second-attempt kinds %q over two attempts, and within one attempt for q > p: %d fault scenarios, each followed by two clean retries", n, firstKinds, secondKinds, npairs)
+	}
 	// controller.run over scripted state functions: every arm of its switch and
 	// the retry / backoff path
 	c.runScript([]ctrl.RunIter{{Next: "Terminal", Err: 'd'}})                                                        // the shape of every in-tree deadline failure
@@ -590,7 +622,8 @@ func Run(cfg hx.Config) error {
 		r.Count("concurrent.scenario")
 		cc.faulty(sc, []ctrl.Script{script}, false)
 	}
-	r.Notes["store"] = "in-memory indexer.Store (go/internal/memstore) following datastore/postgres method by method; every method atomic"
+	r.Notes["store"] = "in-memory indexer.Store (go/internal/memstore) following datastore/postgres method by method; every method atomic (every multi-statement method of datastore/postgres runs in one transaction)"
+	r.Notes["exhaustive singles"] = "for every generated scenario: the fault-free run has N numbered calls (datastore, realizer, stub scanner, stub coalescer); each of the 7 fault kinds is injected at every position 0..N-1 (histogram buckets fault.<kind>@<call letter> give the positions x kinds table by call type), plus the context dead at entry"
 	r.Notes["concurrency"] = "protocol lines: LayerScanConcurrency=1 (the call sequence must be deterministic for position-indexed faults); plus direct checks only with LayerScanConcurrency=4"
 	return nil
 }
